@@ -28,7 +28,7 @@ def sv_step(a: int, b: int, x: int, va: int, vb: int, sel: List[int], names: boo
     """
     pre: 0 <= a < 256 and 0 <= b < 256 and 0 <= x < 256 and a != b and x != a and x != b
     pre: 0 <= va < 2**32 and 0 <= vb < 2**16
-    pre: len(sel) <= 3 and all(0 <= s <= 2 for s in sel)
+    pre: len(sel) <= 4 and all(0 <= s <= 2 for s in sel)
     post: _
     """
     h, p = rig.make_equipment()
@@ -71,7 +71,7 @@ def ec_read_step(a: int, b: int, x: int, lo_a: int, hi_a: int, va: int, vb: int,
     """
     pre: 3 <= a < 256 and 3 <= b < 256 and 3 <= x < 256 and a != b and x != a and x != b
     pre: -1000 <= lo_a <= va <= hi_a <= 1000 and 0 <= vb < 2**16
-    pre: len(sel) <= 3 and all(0 <= s <= 2 for s in sel)
+    pre: len(sel) <= 4 and all(0 <= s <= 2 for s in sel)
     post: _
     """
     h, p = _ec_handler(a, b, lo_a, hi_a, va, vb)
@@ -98,7 +98,7 @@ def ec_set_step(a: int, b: int, x: int, lo_a: int, hi_a: int, va: int, vb: int, 
     """
     pre: 3 <= a < 256 and 3 <= b < 256 and 3 <= x < 256 and a != b and x != a and x != b
     pre: -1000 <= lo_a <= va <= hi_a <= 1000 and 0 <= vb < 2**16
-    pre: 1 <= len(sel) <= 3 and all(0 <= s <= 2 for s in sel)
+    pre: 1 <= len(sel) <= 4 and all(0 <= s <= 2 for s in sel)
     pre: -1002 <= n1 <= 1002 and 0 <= n2 < 2**16 and -1002 <= n3 <= 1002
     post: _
     """
@@ -106,7 +106,7 @@ def ec_set_step(a: int, b: int, x: int, lo_a: int, hi_a: int, va: int, vb: int, 
     ids = _req_ids(sel, (a, b), x)
     news = [n1, n2, n3]
     # value offered for the i-th entry: in the value domain of its constant (ecB is unsigned 16 bit)
-    entries = [{"ECID": i, "ECV": (news[k] if i != b else n2)} for k, i in enumerate(ids)]
+    entries = [{"ECID": i, "ECV": (news[k % 3] if i != b else n2)} for k, i in enumerate(ids)]
     try:
         ack = h._on_s02f15(h, rig.msg(F.SecsS02F15(entries))).get()
     except Exception:
@@ -204,7 +204,7 @@ def _alarm_handler(a, b, en_a, en_b, set_a, set_b):
 def alarm_list_step(a: int, b: int, en_a: bool, en_b: bool, set_a: bool, set_b: bool, sel: List[int], enabled_only: bool) -> bool:
     """
     pre: 0 <= a < 256 and 0 <= b < 256 and a != b
-    pre: len(sel) <= 3 and all(0 <= s <= 1 for s in sel)
+    pre: len(sel) <= 4 and all(0 <= s <= 1 for s in sel)
     post: _
     """
     h, p = _alarm_handler(a, b, en_a, en_b, set_a, set_b)
@@ -274,27 +274,35 @@ def alarm_change_step(a: int, b: int, x: int, en_a: bool, en_b: bool, set_a: boo
 
 
 OBLIGATIONS = [
-    dict(name="sv_step", fn="sv_step", timeout=600, parts=["names", "not names"],
+    dict(name="sv_step", fn="sv_step", timeout=600,
+         parts={"quick": ["names and len(sel) <= 3", "not names and len(sel) <= 3"],
+                "thorough": ["names and len(sel) <= 3", "not names and len(sel) <= 3", "names and len(sel) == 4", "not names and len(sel) == 4"]},
          functions=["StatusDataCollectionCapability._on_s01f03/_on_s01f11/_get_sv_value"],
-         bounds="two user status variables with symbolic 8-bit ids and symbolic values, request lists of 0..3 ids chosen among the two "
+         bounds="two user status variables with symbolic 8-bit ids and symbolic values, request lists of 0..3 (thorough 0..4) ids chosen among the two "
                 "known ids and a symbolic unknown id (repeats, any order); reply == requested items in request order, empty item for "
                 "unknown ids; empty request = all in table order",
-         outside="text ids; built-in CLOCK (time dependent); > 3 ids"),
-    dict(name="ec_read_step", fn="ec_read_step", timeout=600, parts=["names", "not names"],
+         outside="text ids; built-in CLOCK (time dependent); > 4 ids"),
+    dict(name="ec_read_step", fn="ec_read_step", timeout=600,
+         parts={"quick": ["names and len(sel) <= 3", "not names and len(sel) <= 3"],
+                "thorough": ["names and len(sel) <= 3", "not names and len(sel) <= 3", "names and len(sel) == 4", "not names and len(sel) == 4"]},
          functions=["EquipmentConstantsCapability._on_s02f13/_on_s02f29/_get_ec_value"],
          bounds="two user constants (symbolic ids, min/max/value), request lists as for sv_step"),
-    dict(name="ec_set_step", fn="ec_set_step", timeout=900, parts=["len(sel) == 1", "len(sel) == 2", "len(sel) == 3"],
+    dict(name="ec_set_step", fn="ec_set_step", timeout=900,
+         parts={"quick": ["len(sel) == 1", "len(sel) == 2", "len(sel) == 3"],
+                "thorough": ["len(sel) == 1", "len(sel) == 2", "len(sel) == 3"] + ["len(sel) == 4 and sel[0] == %d" % k for k in range(3)]},
          functions=["EquipmentConstantsCapability._on_s02f15/_set_ec_value"],
-         bounds="S2F15 with 1..3 entries over {ecA with symbolic min/max, ecB unbounded, unknown id}, symbolic new values around and "
+         bounds="S2F15 with 1..3 (thorough 1..4) entries over {ecA with symbolic min/max, ecB unbounded, unknown id}, symbolic new values around and "
                 "beyond the limits: all applied or none, never outside [min, max], EAC class",
-         outside="> 3 entries; float arithmetic (ec_float_guard)"),
+         outside="> 4 entries; float arithmetic (ec_float_guard)"),
     dict(name="ec_float_guard", fn="ec_float_guard", kind="native", timeout=120,
          functions=["_on_s02f15 range guard (AST -> z3 FP) + concrete NaN/inf/boundary requests"],
          bounds="every double against the guard expression; 5 concrete two-entry requests",
          findings=[dict(id="C13-nan-ecv", pred="True")]),
-    dict(name="alarm_list_step", fn="alarm_list_step", timeout=600, parts=["enabled_only", "not enabled_only"],
+    dict(name="alarm_list_step", fn="alarm_list_step", timeout=600,
+         parts={"quick": ["enabled_only and len(sel) == 0", "not enabled_only and len(sel) <= 3"],
+                "thorough": ["enabled_only and len(sel) == 0", "not enabled_only and len(sel) <= 3", "not enabled_only and len(sel) == 4"]},
          functions=["AlarmCapability._on_s05f05/_on_s05f07"],
-         bounds="two alarms (symbolic ids, enabled/set flags), S5F5 lists of 0..3 known ids (repeats, any order), S5F7",
+         bounds="two alarms (symbolic ids, enabled/set flags), S5F5 lists of 0..3 (thorough 0..4) known ids (repeats, any order), S5F7",
          outside="S5F5 with unknown ids (the property promises only the requested existing alarms)"),
     dict(name="alarm_change_step", fn="alarm_change_step", timeout=600, parts=["op == 0", "op == 1", "op == 2"],
          functions=["AlarmCapability.set_alarm/clear_alarm/_on_s05f03"],
